@@ -312,7 +312,17 @@ func (g *genState) genPyr(r *core.Rand, root string) string {
 		parts = append(parts, fmt.Sprintf("%s:%d", a, n))
 	}
 	if r.Chance(12) {
-		parts = append(parts, fmt.Sprintf("%s:1", pickStr(r, Universe)))
+		// a foreign chunk (never the same cid twice: getUnRepeatChunk builds the list from a map)
+		f := pickStr(r, Universe)
+		dup := false
+		for _, p := range parts {
+			if strings.HasPrefix(p, f+":") {
+				dup = true
+			}
+		}
+		if !dup {
+			parts = append(parts, fmt.Sprintf("%s:1", f))
+		}
 	}
 	if len(parts) == 0 {
 		return fmt.Sprintf("pyr %s -", root)
